@@ -47,7 +47,10 @@ class Run:
         self.lemma_obls = 0
         self.timeout_ms = 30000 if tier == 'quick' else 120000
         self.known = [k for k in load_known() if k.get('property') == prop]
-        os.makedirs(os.path.join(VERIF, 'replays', prop), exist_ok=True)
+        rd = os.path.join(VERIF, 'replays', prop)
+        os.makedirs(rd, exist_ok=True)
+        for f in os.listdir(rd):
+            os.unlink(os.path.join(rd, f))
         os.makedirs(os.path.join(VERIF, 'evidence'), exist_ok=True)
 
     # ------------------------------------------------------------------ proving
@@ -143,10 +146,15 @@ class Run:
             self.undecided.append(f'{o.name}: {r["status"]} ({r.get("detail")}); replay file {path}')
 
     def _violation(self, what, path, rec, detail, reproduced):
+        if any(v['what'] == what for v in self.violations):
+            return
         for k in self.known:
             if k.get('status') == 'known' and re.search(k['match'], what + ' ' + str(detail)):
                 self.known_hits.append((k, what))
                 return
+        if len(self.violations) >= 6:
+            self.suppressed = getattr(self, 'suppressed', 0) + 1
+            return
         json.dump(rec, open(path, 'w'), indent=1, default=str)
         self.violations.append(dict(what=what, replay=path, reproduced=reproduced))
 
